@@ -125,6 +125,8 @@ def budget(tier):
 
 
 def render_case(case):
+    if case.get('fixed'):
+        return case['deck_text']
     return mr.render(case['deck']) + '\nc options: ' + \
         ' '.join(mr.argv_of(case['deck']))
 
@@ -135,6 +137,10 @@ def sample_repr(case, out):
 
 
 def check(case):
+    if case.get('fixed'):
+        out = judge_array_transformation(case['deck_text'], case['ranges'])
+        return out if out is not None else ok(['fixed-array-transformation'],
+                                              True)
     labels = list(case['labels'])
     n_pairs = 0
     if 'periodic-setting' in labels:
@@ -168,3 +174,66 @@ def check(case):
     sig = case_sig([mr.render(deck), mr.argv_of(deck)])
     counts['lattice_elements_hit'] = len(elements)
     return ok(labels, nontrivial, sig=sig, counts=counts)
+
+
+# -- deterministic part: a transformation written after a FILL array --------
+# MCNP attaches a parenthesised transformation to the array entry it follows:
+# after the last entry it moves the universe of the LAST element only.  The
+# converter may refuse the form (it does, by name) or convert it that way; it
+# must not move every element.
+
+def judge_array_transformation(text, ranges):
+    import numpy as np
+    from .. import t4read, t4eval
+    res = conv.convert(text)
+    if not res.ok:
+        if res.exc_type in ('ParseMCNPCellError', 'NotImplementedError',
+                            'LatticeError') and res.exc_msg:
+            return None
+        return violation('lattice:array-transformation:crash:%s'
+                         % res.crash_key(),
+                         {'error': res.brief(), 'deck': text})
+    # converted: the FIRST element (lowest indices) must be unmoved
+    t4 = t4read.parse(res.t4_text)
+    lo = int(ranges.split(':')[0])
+    centre = np.array([[float(lo), 0.15, 0.0]])
+    ev = t4eval.Evaluator(t4, centre)
+    ids, mat = ev.membership()
+    owners = [t4.volus[v] for k, v in enumerate(ids) if mat[k, 0]]
+    fillers = [v.prov[0][0] for v in owners if v.prov]
+    if fillers != [3]:
+        return violation('lattice:array-transformation:applied-to-every-'
+                         'element',
+                         {'deck': text, 'point': centre[0].tolist(),
+                          'filler_cells_found': fillers, 'expected': [3]})
+    return None
+
+
+def extra(tier, seed, stats):
+    found = {}
+    n = 0
+    for ranges, univs in (('-1:1 0:0 0:0', '2 2 2'), ('0:1 0:0 0:0', '2 2'),
+                          ('0:1 0:1 0:0', '2 2 2 2')):
+        for trtxt in ('(0.2 0 0)', '(7)', '(0.2 0 0 0 1 0 -1 0 0 0 0 1)'):
+            text = ('array fill with a transformation after the last entry\n'
+                    '1 0 -1 imp:n=1 fill=1\n'
+                    '2 0 -2 3 -5 6 imp:n=1 u=1 lat=1 fill=%s %s %s\n'
+                    '3 1 -1.0 -4 imp:n=1 u=2\n'
+                    '4 0 4 imp:n=1 u=2\n'
+                    '5 0 1 imp:n=0\n\n'
+                    '1 so 5\n2 px 0.5\n3 px -0.5\n4 so 0.2\n5 py 0.5\n'
+                    '6 py -0.5\n\nm1 1001 1\ntr7 0.2 0 0\n\n'
+                    % (ranges, univs, trtxt))
+            n += 1
+            stats.counts['extra_nontrivial'] += 1
+            stats.labels.update(['fill-array+trailing-transformation'])
+            out = judge_array_transformation(text, ranges)
+            if out is None:
+                stats.counts['array_tr_refused_or_right'] += 1
+            else:
+                found.setdefault(out.bucket, ({'deck_text': text,
+                                               'ranges': ranges,
+                                               'fixed': True}, out.detail))
+    stats.counts['array_transformation_decks'] = n
+    stats.counts['extra_evaluations'] += n
+    return found
